@@ -31,10 +31,12 @@ def report(kind, name, detail=""):
     print("%-20s %s%s" % (kind, name, (" :: " + detail) if detail else ""))
 
 
-def records(stream: bytes):
+def records(stream: bytes, lenient: bool = False):
     off = 0
     out = []
     while off < len(stream):
+        if lenient and stream[off:] == b"\0" * (len(stream) - off):
+            break                      # sector padding after the last substream (seen in xlwt files)
         if off + 4 > len(stream):
             raise ValueError("truncated record header at %d" % off)
         t, n = struct.unpack_from("<HH", stream, off)
@@ -55,26 +57,43 @@ def read_ustr(b: bytes, pos: int, lenbytes: int = 2):
 
 
 def parse_sst(recs, idx):
-    """independent SST reader handling strings continued over CONTINUE records -> (strings, [(abs offset, offset in record)])"""
+    """independent SST reader ([MS-XLS] 2.4.265 / 2.5.293): strings continued over CONTINUE records (option byte repeated after
+    a split inside the characters), rich-text runs and phonetic blocks -> (total, strings, [(abs offset, offset in record)])"""
     payloads = [(recs[idx][0], recs[idx][2])]
     j = idx + 1
     while j < len(recs) and recs[j][1] == 0x003C:
         payloads.append((recs[j][0], recs[j][2]))
         j += 1
     total, uniq = struct.unpack_from("<II", payloads[0][1], 0)
-    k, pos = 0, 8
+    st = {"k": 0, "pos": 8}
+
+    def skip(n):                       # formatting runs / phonetic data may continue without an option byte
+        while n:
+            p = payloads[st["k"]][1]
+            step = min(n, len(p) - st["pos"])
+            st["pos"] += step
+            n -= step
+            if n:
+                st["k"], st["pos"] = st["k"] + 1, 0
     strings, where = [], []
     for _ in range(uniq):
-        if pos >= len(payloads[k][1]):
-            k, pos = k + 1, 0
-        base, p = payloads[k]
+        if st["pos"] >= len(payloads[st["k"]][1]):
+            st["k"], st["pos"] = st["k"] + 1, 0
+        base, p = payloads[st["k"]]
+        pos = st["pos"]
         where.append((base + 4 + pos, 4 + pos))
         cch, flags = struct.unpack_from("<HB", p, pos)
-        if flags & ~1:
-            raise ValueError("rich/phonetic string flags not expected")
         pos += 3
+        runs = ext = 0
+        if flags & 8:
+            runs = struct.unpack_from("<H", p, pos)[0]
+            pos += 2
+        if flags & 4:
+            ext = struct.unpack_from("<I", p, pos)[0]
+            pos += 4
         wide = flags & 1
         chars = ""
+        k = st["k"]
         while cch:
             base, p = payloads[k]
             room = (len(p) - pos) // (2 if wide else 1)
@@ -88,8 +107,10 @@ def parse_sst(recs, idx):
                     raise ValueError("string split in mid-character")
                 k, pos = k + 1, 1
                 wide = payloads[k][1][0] & 1
+        st["k"], st["pos"] = k, pos
+        skip(4 * runs + ext)
         strings.append(chars.encode("utf-16-le", "surrogatepass").decode("utf-16-le"))
-    if k != len(payloads) - 1 or pos != len(payloads[k][1]):
+    if st["k"] != len(payloads) - 1 or st["pos"] != len(payloads[st["k"]][1]):
         raise ValueError("SST has trailing bytes")
     return total, strings, where
 
@@ -409,6 +430,36 @@ def main():
             break
     else:
         report("ok", "SST split positions 8190..8229 (header never split, UTF-16 never split in mid-character)")
+    # --- the independent record / SST / EXTSST reader agrees with xlrd and with Excel's own EXTSST on real files
+    for f in ("pb_2011_1_gen_web.xls", "xls_with_images.xls", "mwe.xls"):
+        path = "/repo/sharepoint2text/tests/resources/legacy_ms/" + f
+        try:
+            with olefile.OleFileIO(path) as ole:
+                wb = ole.openstream("Workbook").read()
+        except OSError:
+            continue
+        try:
+            recs = records(wb, lenient=True)
+            si = [i for i, r_ in enumerate(recs) if r_[1] == 0x00FC]
+            if not si:
+                report("info", "real file %s has no SST" % f)
+                continue
+            total, strings, where = parse_sst(recs, si[0])
+            bk = xlrd.open_workbook(path, logfile=io.StringIO(), on_demand=True)
+            same = list(bk._sharedstrings) == strings
+            ext = [p_ for _, t_, p_ in recs if t_ == 0x00FF]
+            ext_ok = "no EXTSST"
+            if ext:
+                dsst = struct.unpack_from("<H", ext[0])[0]
+                ents = [struct.unpack_from("<IHH", ext[0], 2 + 8 * i) for i in range((len(ext[0]) - 2) // 8)]
+                ext_ok = "EXTSST %d/%d buckets point where this reader finds the strings" % (sum((ib, cb) == where[i * dsst] for i, (ib, cb, _) in enumerate(ents) if i * dsst < len(where)), len(ents))
+            bs = [struct.unpack_from("<I", p_)[0] for _, t_, p_ in recs if t_ == 0x0085]
+            bofs = [o_ for o_, t_, _ in recs if t_ == 0x0809][1:]
+            good = same and set(bs) <= set(bofs) and (not ext or ext_ok.startswith("EXTSST %d/%d" % (len(ents), len(ents))))
+            report("ok" if good else "WRITER-INVALID", "real file %s: %d shared strings %s xlrd's, BOUNDSHEET offsets hit BOF records: %s, %s" %
+                   (f, len(strings), "equal" if same else "DIFFER from", set(bs) <= set(bofs), ext_ok))
+        except Exception as e:
+            report("WRITER-INVALID", "real file %s: independent reader fails" % f, "%s: %s" % (type(e).__name__, e))
     # --- limits / refusals
     for label, doc in [("sheet name too long", ["doc", {}, [["sheet", "N" * 32, []]]]), ("sheet name with slash", ["doc", {}, [["sheet", "N/a", []]]]),
                        ("duplicate sheet names", ["doc", {}, [["sheet", "Nab", []], ["sheet", "NAB", []]]]), ("no sheets", ["doc", {}, []]),
